@@ -263,6 +263,33 @@ Definition f03_region (c : repcase) : bool :=
   | KRep d (RStack _) (RMap _) _ _ => negb (forallb (fun cl => forallb plain_ty (c_fields cl)) (d_classes d))
   | _ => false
   end.
+(* ---------- C02 / C03 on the same outputs: refinements hold and the depth limit is respected after variation and mapping ---------- *)
+Definition c02r_ok (c : repcase) : bool :=
+  match c with
+  | KRep d rk op _ o =>
+      match obs_grammar d, ro_res o with
+      | Some g, POk out => forallb (fun v => satb (g_decl g) (g_reg g) (wt_fuel v) [] (TSym (d_start d)) v) (out_programs rk out)
+      | _, _ => true
+      end
+  end.
+Definition rk_depth (rk : rkind) : option Z :=
+  match rk with
+  | RTree k | RGE k _ | RSGE k _ _ _ => dk_depth k
+  | RDsge D => Some D
+  | RStack _ => None
+  end.
+Definition c03r_ok (c : repcase) : bool :=
+  match c with
+  | KRep d rk op _ o =>
+      match rk_depth rk, ro_res o with
+      | Some D, POk out => d_xdepth d || forallb (fun v => vdepth v <=? D) (out_programs rk out)
+      | _, _ => true
+      end
+  end.
+Definition run_c02r (cases : list repcase) : list N * list N * list N :=
+  (failing rep_corr cases, failing (fun c => c02r_ok c || f03_region c) cases, failing (fun c => c02r_ok c || negb (f03_region c)) cases).
+Definition run_c03r (cases : list repcase) : list N * list N := (failing rep_corr cases, failing c03r_ok cases).
+
 Definition run_c01r (cases : list repcase) : list N * list N * list N :=
   (failing rep_corr cases, failing (fun c => c01r_ok c || f03_region c) cases, failing (fun c => c01r_ok c || negb (f03_region c)) cases).
 
